@@ -221,6 +221,10 @@ def real_replay(harness, args, failure):
     """Real ThreadWorkers: workers flagged dead finish, then active_children() is compared."""
     import threading
     from pyworkers.thread import ThreadWorker
+    if harness == "unref":
+        return _real_replay_unref(args)
+    if harness != "step":
+        return None, "no real-OS replay for harness %s" % harness
     _reset()
     n = args["n"]
     evs = [threading.Event() for _ in range(n)]
@@ -242,6 +246,33 @@ def real_replay(harness, args, failure):
             e.set()
         for w in ws:
             w.wait()
+        _reset()
+
+
+def _real_replay_unref(args):
+    """A real fire-and-forget ProcessWorker: its child process is running, nobody holds the worker object."""
+    import gc
+    import time
+    import multiprocessing as mp
+    from pyworkers.process import ProcessWorker
+    if args.get("op") != 0 or not any(args.get("a%d" % i) for i in range(args.get("n", 0))):
+        return None, "real-process replay covers the plain view with at least one live worker"
+    _reset()
+
+    def spawn():
+        ProcessWorker(time.sleep, args=[8])
+    spawn()
+    gc.collect()
+    time.sleep(0.5)
+    procs = [p for p in mp.active_children() if p.is_alive()]
+    got = list(Worker.active_children())
+    try:
+        return (bool(procs) and not got), "real fire-and-forget ProcessWorker: %d live child process(es), active_children() yields %d worker(s)" % (len(procs), len(got))
+    finally:
+        for w in got:
+            w.terminate()
+        for p in procs:
+            p.terminate()
         _reset()
 
 
@@ -371,3 +402,95 @@ SPEC.harnesses.append(H_CONC)
 SPEC.assumptions.append("harness 'conc': a second thread (an actor of vf/sim.py) registers a new worker at the moment active_children() makes its j-th liveness "
                         "poll; Worker._children_lock is replaced by a simulation-aware lock with the same semantics")
 SPEC.outside[:] = ["more than two threads; interleavings finer than 'between two liveness polls'", "histories are covered by one inductive step, not unrolled"]
+
+
+# ---------------------------------------------------------------------------------------------
+# fire-and-forget workers: the caller keeps no reference to the workers it creates; whether a worker is alive is a fact about its
+# child (here: a side table), not about who still points to the Python object
+LIVE = {}
+
+
+class TW(Worker):
+    def __init__(self, tag, **kw):
+        self.tag = tag
+        super().__init__(_noop, **kw)
+
+    def _start(self):
+        self._dead = False
+
+    @property
+    def is_child(self):
+        return False
+
+    def is_alive(self):
+        if not self._started or self._dead:
+            return False
+        return LIVE.get(self.tag, False)
+
+    def close(self):
+        pass
+
+    def wait(self, timeout=None):
+        LIVE[self.tag] = False
+        return True
+
+    def terminate(self, timeout=1, force=True):
+        LIVE[self.tag] = False
+        return True
+
+    def _get_result(self):
+        return (True, None) if not self.is_alive() else None
+
+
+def _spawn_unreferenced(n):
+    for i in range(n):
+        LIVE[i] = True
+        TW(i, run=True)          # the result is dropped on purpose
+
+
+def h_unref(n, a0, a1, a2, a3, op):
+    import gc
+    with notrace():
+        _reset()
+        LIVE.clear()
+        try:
+            n_, op_ = conc(n, 5), conc(op, 2)
+            alive = [a0, a1, a2, a3][:n_]
+            _spawn_unreferenced(n_)
+            for i in range(n_):
+                if sym_eq(alive[i], 0):
+                    LIVE[i] = False
+            gc.collect()
+            ev("unref", n_, op_, str(sorted(LIVE.items())))
+            if op_ == 1:
+                with autoclose_active_children():
+                    pass
+                if any(LIVE.values()):
+                    return Outcome("c19.unref.autoclose-leaves-live", True)
+                return Outcome(None, n_ > 0)
+            for view in ("view1", "view2"):
+                got = sorted(w.tag for w in Worker.active_children())
+                want = sorted(t for t, a in LIVE.items() if a)
+                if len(set(got)) != len(got):
+                    return Outcome("c19.unref.%s.duplicate" % view, True)
+                if [t for t in want if t not in got]:
+                    return Outcome("c19.unref.%s.misses-live" % view, True, "got=%r want=%r" % (got, want))
+                if [t for t in got if t not in want]:
+                    return Outcome("c19.unref.%s.yields-dead" % view, True, "got=%r want=%r" % (got, want))
+            return Outcome(None, n_ > 0)
+        finally:
+            _reset()
+            LIVE.clear()
+
+
+H_UNREF = Harness(
+    "unref", "vf.props.c19:h_unref",
+    OrderedDict([("n", (0, 4))] + [("a%d" % i, (0, 1)) for i in range(4)] + [("op", (0, 1))]),
+    tiers={"quick": {"partition": ["n", "op"], "timeout": 120, "twin_fixed": {"n": 2, "op": 0}},
+           "thorough": {"partition": ["n", "op"], "timeout": 120, "twin_fixed": {"n": 2, "op": 0}}},
+    functions=["pyworkers.worker:Worker.active_children", "pyworkers.worker:Worker.register_child", "pyworkers.worker:Worker.__init__",
+               "pyworkers.worker:autoclose_active_children"],
+)
+SPEC.harnesses.append(H_UNREF)
+SPEC.assumptions.append("harness 'unref': the caller keeps no reference to the workers it creates (liveness lives in a side table keyed by a tag); "
+                        "the garbage collector runs before active_children() / the autoclose block")
